@@ -354,7 +354,7 @@ PROPS = {
         'assumptions': ['Mode::with_extensions only', 'two fixed option tables', 'unit getoptsk: 16 concrete vectors over the option strings "ab:c"; expectations are literals written from XCU getopts'],
     },
     'C02': {
-        'v_units': ['cmdsearch', 'looplevel', 'returnbi', 'whileloop', 'forloop', 'casecmd', 'condframe', 'simplecmd', 'funcall', 'subshellcmd', 'pipelinerun', 'asynclist', 'cmdlist', 'builtincall', 'absenttarget', 'exitbi', 'fundef', 'pipelineparse'],
+        'v_units': ['cmdsearch', 'looplevel', 'returnbi', 'whileloop', 'forloop', 'casecmd', 'condframe', 'simplecmd', 'funcall', 'subshellcmd', 'pipelinerun', 'asynclist', 'cmdlist', 'builtincall', 'absenttarget', 'exitbi', 'fundef', 'pipelineparse', 'dotscript'],
         'k_units': ['loopcount'],
         'level': 'other',
         'explanation': (
@@ -421,7 +421,8 @@ PROPS = {
             " Unit absenttarget (Verus, yash-semantics/src/command/simple_command/absent.rs execute_absent_target - a simple command without a command name): its redirections are never performed in this shell - without redirections no child is started, otherwise exactly one child is started for exactly these redirections and awaited, and its result is interpreted once; in the child (the closure, checked as a nested function with the same body) they are performed once, all, under a guard, a failed one is reported once and the handler's outcome applied, otherwise the child's status is that of the last command substitution in them or the status the command started with; a child that cannot be started interrupts with status 2 and no assignment is made; otherwise the assignments are made in THIS shell, once, all of them, NOT exported, in the caller's own contexts (they stay), a failed one hands its divert on, and `$?` is the status of the last command substitution in the assignments, else what the child reported, else (no redirections) the status handed in."
             " Unit exitbi (Verus, yash-builtin/src/exit.rs main): a well-formed `exit` asks for the end of the shell with Divert::Exit carrying its operand (None without an operand: the built-in's own status is then the current `$?`, which it leaves alone); two operands, a negative or non-numeric operand or an unknown option are errors reported once and ask for no exit; an interactive shell with stopped jobs refuses once without -f (an interrupt with a failure status, no Exit divert)."
             ' Unit fundef (Verus, yash-semantics/src/command/function_definition.rs): a function definition expands its name once; an error there is handled once and nothing is defined; otherwise a function of exactly that name whose body is the body of the definition is handed to the function set, once - accepted: `$?` is 0; refused by an existing read-only function: reported once, `$?` is 2; errexit is consulted exactly once afterwards with that status unless the handler of an expansion error diverted.'
-            ' Unit pipelineparse (Verus, yash-syntax/src/parser/pipeline.rs Parser::pipeline) against a monitor of what the parser consumed: when the first command position is an alias substitution, or holds no command and no `!`, the call returns WITHOUT having consumed anything (the caller parses the replacement text from its start); the pipeline handed out is negated exactly when this call consumed a `!` token, its commands are exactly the commands parsed, in order, a `|` was consumed between every two of them and nothing else was consumed; after a `!` or a `|` an alias substitution makes the command be parsed again in place, so what was consumed is not forgotten.'),
+            ' Unit pipelineparse (Verus, yash-syntax/src/parser/pipeline.rs Parser::pipeline) against a monitor of what the parser consumed: when the first command position is an alias substitution, or holds no command and no `!`, the call returns WITHOUT having consumed anything (the caller parses the replacement text from its start); the pipeline handed out is negated exactly when this call consumed a `!` token, its commands are exactly the commands parsed, in order, a `|` was consumed between every two of them and nothing else was consumed; after a `!` or a `|` an alias substitution makes the command be parsed again in place, so what was consumed is not forgotten.'
+            " Unit dotscript (Verus, yash-builtin/src/source/semantics.rs Command::execute, consume_return): the `.` built-in reads the script once, through a descriptor newly opened for it (open while it is read, closed afterwards whatever came out: no descriptor is left behind), inside a DotScript frame on top of the caller's frames, which are back afterwards; a Return divert out of the script ends the script only - its status, or `$?`, becomes the status of the built-in -, every other divert is handed on; a script that cannot be opened gives one report and nothing runs."),
         'trusted_base': ['Verus 0.2026.09.13 + Z3', 'Kani 0.68.0 + CBMC 6.11', '/verif/tools/vextract.py, /verif/tools/kunit.py'],
         'assumptions': [
             'unit cmdsearch: the methods of ClassifyEnv / PathEnv answer according to ghost views builtin_of / function_of / path_hit (implementor obligation, not verified); search_path is external_body (returns path_hit, leaves the environment alone); str::contains(char), CString::default / new are opaque helpers; Builtin / Function reduced to what the search reads; the raw identifier r#type is renamed (Verus aborts on it); derived PartialEq of Type is structural',
@@ -441,6 +442,7 @@ PROPS = {
             'unit exitbi: parse_arguments is external_body (uninterpreted views of the argument vector; every option it hands out is -f; the Kani unit optparse checks the real parser, bounded, for C20); the error reporters are opaque calls that never answer an Exit divert; str::parse::<i32> uninterpreted; slice::get / first and Iterator::any through helpers with the std meaning; the test "interactive, not POSIXly correct, guard configured, some job stopped" is ONE opaque helper (its conjuncts are not under contract) and the let chain is nested by hand; await points dropped',
             'unit fundef: expand_word, the error handler, FunctionSet::define, report_define_error, apply_errexit are opaque calls appending to ghost state; the three lines around `unsafe { Rc::from_raw(..) }` that view the body as a function body object are ONE helper keeping the identity of the body (unsafe code: trusted, not verified); await points dropped',
             'unit pipelineparse: the parser is reduced to a monitor of consumed tokens / parsed commands: command(), peek_token, take_token_raw (the token peeked is the token taken next; token indexes below usize::MAX), newline_and_here_doc_contents and mode are opaque; Keyword / Operator reduced to the members named here; two `let x = loop { .. break v; .. }` by rule loop-break-value with their invariants in the replacement text; a second annotation set judges a body that looks for the `!` before parsing the first command; preconditions: a fresh monitor; await points dropped; termination not claimed',
+            'unit dotscript: find_and_open_file (the $PATH walk) is an opaque call answering a newly opened descriptor (open_file = open close-on-exec + move_fd_internal, the latter verified in unit redir); the construction of the parser configuration and the call of the read-eval loop taken from env.any are one opaque helper recording the descriptor, the frames and the open set; RAII of the frame guard assumed; the descriptor table is a ghost set; await points dropped',
         ],
     },
     'C05': {
@@ -465,7 +467,7 @@ PROPS = {
         ],
     },
     'C09': {
-        'v_units': ['redir', 'funcall', 'fullcompound', 'builtincall', 'absenttarget'],
+        'v_units': ['redir', 'funcall', 'fullcompound', 'builtincall', 'absenttarget', 'dotscript'],
         'k_units': [],
         'level': 'other',
         'explanation': (
@@ -496,7 +498,8 @@ PROPS = {
             'here-document body (assumed not to touch the table), the other callers of the guard (built-ins, the absent target: '
             'async interpreter code), move_fd_internal, and the simulated system itself.'
             " Unit builtincall (Verus, yash-semantics/src/command/simple_command/builtin.rs execute_builtin): the redirections of the command are performed first, once, under a RedirGuard; a failed one is reported once and nothing else happens - it interrupts the shell iff the built-in is a SPECIAL one, any other lets the shell go on; the assignments are then made once, with the redirections in effect: for a SPECIAL built-in in the caller's own contexts and not exported (they stay), for any other exported in a VOLATILE context pushed on top, which is gone afterwards; the built-in runs at most once, only after both succeeded and it turned out usable, in a Builtin frame saying whether it is special, with the redirections in effect, the contexts of the assignments and the fields after the command name; `$?` is the exit status of its result, the divert of its result is handed on, and the redirections stay in effect afterwards exactly when the result asks for that (exec); an unusable built-in is reported once, nothing runs, and the contexts, frames and redirections are the caller's again."
-            " Unit absenttarget (Verus, yash-semantics/src/command/simple_command/absent.rs execute_absent_target - a simple command without a command name): its redirections are never performed in this shell - without redirections no child is started, otherwise exactly one child is started for exactly these redirections and awaited, and its result is interpreted once; in the child (the closure, checked as a nested function with the same body) they are performed once, all, under a guard, a failed one is reported once and the handler's outcome applied, otherwise the child's status is that of the last command substitution in them or the status the command started with; a child that cannot be started interrupts with status 2 and no assignment is made; otherwise the assignments are made in THIS shell, once, all of them, NOT exported, in the caller's own contexts (they stay), a failed one hands its divert on, and `$?` is the status of the last command substitution in the assignments, else what the child reported, else (no redirections) the status handed in."),
+            " Unit absenttarget (Verus, yash-semantics/src/command/simple_command/absent.rs execute_absent_target - a simple command without a command name): its redirections are never performed in this shell - without redirections no child is started, otherwise exactly one child is started for exactly these redirections and awaited, and its result is interpreted once; in the child (the closure, checked as a nested function with the same body) they are performed once, all, under a guard, a failed one is reported once and the handler's outcome applied, otherwise the child's status is that of the last command substitution in them or the status the command started with; a child that cannot be started interrupts with status 2 and no assignment is made; otherwise the assignments are made in THIS shell, once, all of them, NOT exported, in the caller's own contexts (they stay), a failed one hands its divert on, and `$?` is the status of the last command substitution in the assignments, else what the child reported, else (no redirections) the status handed in."
+            " Unit dotscript (Verus, yash-builtin/src/source/semantics.rs Command::execute, consume_return): the `.` built-in reads the script once, through a descriptor newly opened for it (open while it is read, closed afterwards whatever came out: no descriptor is left behind), inside a DotScript frame on top of the caller's frames, which are back afterwards; a Return divert out of the script ends the script only - its status, or `$?`, becomes the status of the built-in -, every other divert is handed on; a script that cannot be opened gives one report and nothing runs."),
         'trusted_base': ['Verus 0.2026.09.13 + Z3', '/verif/tools/vextract.py'],
         'assumptions': [
             'the system traits Close / Dup / Fcntl are replaced by one synchronous model trait over a ghost descriptor table (fd -> open file description, close-on-exec); dup returns a descriptor that was not open, >= its minimum, EBADF exactly for a closed source; dup2 clears close-on-exec; close of a closed descriptor succeeds (as the trait documents); failures of close/dup2 on valid descriptors are a function of the state and excluded by hypothesis in the restoration clauses',
@@ -508,6 +511,7 @@ PROPS = {
             'Location, Word, Text, HereDoc, Field, XTrace, expansion errors, CString, NulError, ParseIntError are opaque placeholders; EnumSet<T> is a ghost set of flags with assumed contracts for empty / | / into / contains; Mode, the option set (one option) and file status (one bit) are reduced models; Errno::EBADF = 9, EEXIST = 17, ENOENT = 2',
             'unit builtincall: RAII of RedirGuard, the context guard and the frame guard assumed in the contracts of their constructors; perform_assignments, resolve_builtin, the error handler, print_error and the built-in itself are opaque calls recording what was in place; Either::Left(&mut *env) / Either::Right(env.push_context(..)) are checked as two constructors of one guard type and the match that dereferences them as taking the reference the guard holds; the INTERRUPTIBLE run of a built-in (select between the built-in and SIGINT, signals caught meanwhile) is one opaque helper and NOT under contract; the labeled block with a value is checked in its else-nesting form (rule labeled-block-value-to-else); `r#type` renamed; precondition: at least the command name among the fields; await points dropped',
             "unit absenttarget: the async closure handed to Config::foreground().start_and_wait(..) is checked as a nested function (rule closure-to-nested-fn: parameters = the closure's parameters plus the captured variables redirs_2 and exit_status; its `return` is the closure's) and the start is an opaque call recording what the child was given; RAII of RedirGuard assumed; perform_redirs / perform_assignments / the error handler / apply_result / handle_job_status / print_error opaque, recording what was in place and the status of the last command substitution they saw; slice::first, the iterator over the redirections and the location of the first redirection through helpers; await points dropped",
+            'unit dotscript: find_and_open_file (the $PATH walk) is an opaque call answering a newly opened descriptor (open_file = open close-on-exec + move_fd_internal, the latter verified in unit redir); the construction of the parser configuration and the call of the read-eval loop taken from env.any are one opaque helper recording the descriptor, the frames and the open set; RAII of the frame guard assumed; the descriptor table is a ghost set; await points dropped',
         ],
     },
     'C13': {
